@@ -42,7 +42,7 @@ FLOORS = {"quick": {"model.fields": 1500, "memory.xyz": 700, "traces.precentered
 ASSUMPTIONS = ["precentered=True is judged only on coordinates that are centred (centro-symmetric construction keeps them so)",
                "float arithmetic of center_coordinates/superpose is not modelled: after them the model adopts the real xyz once "
                "centroid / rigidity have been checked"]
-OPS = ["int", "negint", "slice", "revslice", "index", "mask", "slice_nocopy", "join", "plus", "mdjoin", "stack", "atom_slice",
+OPS = ["int", "negint", "slice", "revslice", "index", "mask", "slice_nocopy", "join", "plus", "mdjoin", "join_overlap", "stack", "atom_slice",
        "atom_slice_inplace", "center", "center_mw", "superpose", "remove_solvent", "set_xyz", "set_time", "set_cell", "obs_rmsd"]
 _TMP = None
 
@@ -59,9 +59,27 @@ def gen_cases(tier, seed):
     for r in range(reps):
         for j, name in enumerate(IMMUTABLE_NAMES):
             yield dict(i=r * 100 + j, kind="immutable", fn=name, seed=common.case_seed(seed, "C03i", r * 100 + j), variant=r)
+    # observational immutability over pairs: g(t) must not depend on whether f(t) was called before on the same objects
+    pure = [n for n in IMMUTABLE_NAMES if n not in IN_PLACE_DOCUMENTED]
+    if tier == "quick":
+        rngp = common.rng_for("C03pairs", seed)
+        pairs = [(pure[int(rngp.integers(len(pure)))], IMMUTABLE_NAMES[int(rngp.integers(len(IMMUTABLE_NAMES)))]) for _ in range(160)]
+        # a few pairs that share derived state by construction are always present
+        pairs += [("compute_center_of_mass", "density"), ("compute_inertia_tensor", "density"), ("compute_distances(opt=False)", "unitcell_vectors"),
+                  ("compute_distances(opt=False)", "save(xtc)"), ("compute_displacements(opt=False)", "save(trr)"), ("compute_angles(opt=False)", "unitcell_volumes"),
+                  ("compute_dihedrals(opt=False)", "save(gro)"), ("unitcell_volumes", "save(gro)"), ("compute_phi", "compute_chi1"),
+                  ("shrake_rupley", "shrake_rupley(residue)"), ("select", "compute_contacts(ca)")]
+    else:
+        pairs = [(f, g) for f in pure for g in IMMUTABLE_NAMES]
+    for j, (f, g) in enumerate(pairs):
+        if f == g:
+            continue
+        yield dict(i=500 + j, kind="pair", f=f, g=g, seed=common.case_seed(seed, "C03p", j), variant=j % 2)
+        if tier != "quick" or j >= 160:  # thorough: both cell variants for every pair; quick: for the pinned pairs
+            yield dict(i=50000 + j, kind="pair", f=f, g=g, seed=common.case_seed(seed, "C03p", j), variant=(j + 1) % 2)
     for i in range(nh):
         rng = common.rng_for("C03", seed, i)
-        yield dict(i=1000 + i, kind="history", seed=common.case_seed(seed, "C03", i), n_frames=int(rng.integers(3, 41)),
+        yield dict(i=100000 + i, kind="history", seed=common.case_seed(seed, "C03", i), n_frames=int(rng.integers(3, 41)),
                    n_pairs=int(rng.integers(3, 31)), sym=bool(rng.random() < 0.55), odd=int(rng.integers(0, 2)), cell=bool(rng.random() < 0.6),
                    length=int(rng.integers(3, 9 if tier == "quick" else 26)))
 
@@ -246,6 +264,8 @@ def observe_rmsd(ctx, t, m, hist):
 def run_case(case, ctx):
     if case["kind"] == "immutable":
         return run_immutable(case, ctx)
+    if case["kind"] == "pair":
+        return run_pair(case, ctx)
     import mdtraj as md
     rng = common.rng_for("C03h", case["seed"])
     sym = case.get("sym", True)
@@ -325,6 +345,30 @@ def run_case(case, ctx):
                 strict, exact = True, True
                 for o in others:
                     check_memory(ctx, out, o, label + "(other)", True)
+            elif op == "join_overlap":
+                # the documented overlap rule: when the last frame of one piece equals the first frame of the next (within
+                # 2e-3 nm) the former is dropped -> numpy: concatenate(m[:-1], other)
+                if nf < 2:
+                    continue
+                o, om = make(rng, int(rng.integers(2, 6)), na, m["L"] is not None, top=t.topology, ids=m["ids"], sym=sym and na % 2 == 0)
+                if hist["centered_once"]:
+                    o.center_coordinates()
+                x0 = np.array(o.xyz, copy=True)
+                x0[0] = t.xyz[-1]
+                o.xyz = x0
+                if hist["centered_once"]:
+                    o.center_coordinates()  # traces of the (already centred) pieces are cached on both sides
+                om["xyz"] = np.array(o.xyz, copy=True)
+                if not np.all(np.abs(om["xyz"][0] - m["xyz"][-1]) < 2e-3):
+                    continue
+                out = t.join(o, discard_overlapping_frames=True)
+                label = "join(discard_overlapping_frames)"
+                cut = _index(m, list(range(nf - 1)))
+                m2 = dict(xyz=np.concatenate([cut["xyz"], om["xyz"]]), time=np.concatenate([cut["time"], om["time"]]),
+                          L=None if m["L"] is None else np.concatenate([cut["L"], om["L"]]),
+                          A=None if m["A"] is None else np.concatenate([cut["A"], om["A"]]), ids=m["ids"])
+                strict, exact = True, True
+                check_memory(ctx, out, o, label + "(other)", True)
             elif op == "stack":
                 o, om = make(rng, nf, 2 * int(rng.integers(1, 4)), False)
                 out = t.stack(o)
@@ -459,7 +503,7 @@ def _index(m, sel):
 # ------------------------------------------------------------------------------------------------ input immutability
 def _digest(t):
     h = {}
-    for nm in ("xyz", "time", "unitcell_lengths", "unitcell_angles"):
+    for nm in ("xyz", "time", "unitcell_lengths", "unitcell_angles", "unitcell_vectors", "unitcell_volumes"):
         a = getattr(t, nm)
         h[nm] = None if a is None else hashlib.sha256(np.ascontiguousarray(a).tobytes() + str(a.shape).encode() + str(a.dtype).encode()).hexdigest()
     top = t.topology
@@ -474,7 +518,9 @@ def _protein(rng, variant):
     t = md.load(os.path.join(repo, "tests/data/2EQQ.pdb"))[: 6 + variant]
     t.xyz = (t.xyz + rng.normal(scale=0.002, size=t.xyz.shape)).astype(np.float32)
     t.unitcell_lengths = np.full((t.n_frames, 3), 8.0, np.float32)
-    t.unitcell_angles = np.full((t.n_frames, 3), 90.0, np.float32)
+    # odd variants: a skewed cell whose standard vectors are NOT in reduced form (c_y > b_y/2), so code that reduces a box
+    # has something to change
+    t.unitcell_angles = np.tile(np.array([[50.0, 65.0, 75.0]], np.float32) if variant % 2 else np.array([[90.0, 90.0, 90.0]], np.float32), (t.n_frames, 1))
     t.time = np.arange(t.n_frames, dtype=np.float32) * 2
     return t
 
@@ -485,7 +531,10 @@ def _fns():
     pairs = lambda t: np.array([[0, 5], [3, 40], [7, 100]])
     F = {}
     F["compute_distances"] = (lambda t: md.compute_distances(t, pairs(t)), ())
-    F["compute_distances(opt=False)"] = (lambda t: md.compute_distances(t[:2], pairs(t), opt=False), ())
+    F["compute_distances(opt=False)"] = (lambda t: md.compute_distances(t, pairs(t), opt=False), ())
+    F["compute_displacements(opt=False)"] = (lambda t: md.compute_displacements(t, pairs(t), opt=False), ())
+    F["compute_angles(opt=False)"] = (lambda t: md.compute_angles(t, np.array([[0, 1, 2], [5, 9, 30]]), opt=False), ())
+    F["compute_dihedrals(opt=False)"] = (lambda t: md.compute_dihedrals(t, np.array([[0, 1, 2, 3], [5, 9, 30, 60]]), opt=False), ())
     F["compute_displacements"] = (lambda t: md.compute_displacements(t, pairs(t)), ())
     F["compute_angles"] = (lambda t: md.compute_angles(t, np.array([[0, 1, 2], [5, 9, 30]])), ())
     F["compute_dihedrals"] = (lambda t: md.compute_dihedrals(t, np.array([[0, 1, 2, 3], [5, 9, 30, 60]])), ())
@@ -515,6 +564,7 @@ def _fns():
     F["compute_rdf"] = (lambda t: md.compute_rdf(t, pairs(t), r_range=(0, 1)), ())
     F["find_closest_contact"] = (lambda t: md.find_closest_contact(t, [0, 1, 2], [50, 51]), ())
     F["unitcell_volumes"] = (lambda t: t.unitcell_volumes, ())
+    F["unitcell_vectors"] = (lambda t: np.array(t.unitcell_vectors, copy=True), ())
     F["hash"] = (lambda t: hash(t), ())
     F["getitem"] = (lambda t: t[::2], ())
     F["atom_slice"] = (lambda t: t.atom_slice(ca(t)), ())
@@ -543,15 +593,88 @@ def _fresh(t):
                          unitcell_angles=t.unitcell_angles.copy())
 
 
-IMMUTABLE_NAMES = ["compute_distances", "compute_distances(opt=False)", "compute_displacements", "compute_angles", "compute_dihedrals",
+IMMUTABLE_NAMES = ["compute_distances", "compute_distances(opt=False)", "compute_displacements(opt=False)", "compute_angles(opt=False)",
+                   "compute_dihedrals(opt=False)", "compute_displacements", "compute_angles", "compute_dihedrals",
                    "compute_phi", "compute_psi", "compute_chi1", "compute_omega", "compute_rg", "compute_center_of_mass",
                    "compute_center_of_geometry", "compute_gyration_tensor", "compute_inertia_tensor", "principal_moments", "asphericity",
                    "compute_contacts(closest-heavy)", "compute_contacts(ca)", "compute_neighbors", "compute_neighborlist", "shrake_rupley",
                    "shrake_rupley(residue)", "compute_dssp", "kabsch_sander", "baker_hubbard", "wernet_nilsson", "compute_drid", "density",
-                   "compute_rdf", "find_closest_contact", "unitcell_volumes", "hash", "getitem", "atom_slice", "join", "stack",
+                   "compute_rdf", "find_closest_contact", "unitcell_volumes", "unitcell_vectors", "hash", "getitem", "atom_slice", "join", "stack",
                    "remove_solvent", "image_molecules(inplace=False)", "make_molecules_whole(inplace=False)", "smooth(inplace=False)",
                    "to_dataframe", "select", "rmsd(ref=input)", "rmsd(target=input)", "rmsd(atom_indices)", "rmsf", "superpose(ref=input)",
                    "lprmsd"] + [f"save({e})" for e in ("h5", "xtc", "trr", "dcd", "nc", "pdb", "gro", "xyz", "lammpstrj", "mdcrd", "pdb.gz")]
+
+
+IN_PLACE_DOCUMENTED = {"rmsd(ref=input)", "rmsd(target=input)", "rmsd(atom_indices)", "rmsf", "lprmsd"}
+
+
+def _canon(x, h):
+    import mdtraj as md
+    if x is None:
+        h.update(b"None")
+    elif isinstance(x, md.Trajectory):
+        for nm in ("xyz", "time", "unitcell_lengths", "unitcell_angles"):
+            _canon(getattr(x, nm), h)
+        h.update(repr([(a.name, a.residue.name, a.residue.index) for a in x.topology.atoms]).encode())
+    elif isinstance(x, np.ndarray):
+        h.update(str(x.shape).encode() + str(x.dtype).encode() + np.ascontiguousarray(x).tobytes())
+    elif hasattr(x, "toarray"):
+        _canon(x.toarray(), h)
+    elif isinstance(x, (list, tuple)):
+        h.update(b"[%d" % len(x))
+        for y in x:
+            _canon(y, h)
+    elif hasattr(x, "to_numpy"):
+        h.update(x.to_csv().encode())
+    else:
+        h.update(repr(x).encode())
+
+
+def _result_digest(name, t):
+    """digest of what the function name returns (for save(ext): of what the written file loads back as)"""
+    import mdtraj as md
+    h = hashlib.sha256()
+    if name.startswith("save("):
+        ext = name[5:-1]
+        d = tempfile.mkdtemp(dir=_TMP)
+        path = os.path.join(d, "x." + ext)
+        t.save(path)
+        from vlib.gen import files as vfiles
+        kw = {} if vfiles.FORMATS[ext]["self_top"] else {"top": t.topology}
+        _canon(md.load(path, **kw), h)
+    else:
+        _canon(_fns()[name][0](t), h)
+    return h.hexdigest()
+
+
+def run_pair(case, ctx):
+    """g(t) after f(t) on the very same objects must equal g on a pristine copy: an analysis call must not leave anything
+    behind (caches on the trajectory / topology, arrays handed out and later mutated) that changes later results."""
+    rng = common.rng_for("C03p", case["seed"])
+    t = _protein(rng, case["variant"])
+    pristine = _fresh(t)
+    f, g = case["f"], case["g"]
+    try:
+        ref = _result_digest(g, pristine)
+    except Exception as e:
+        ctx.skip("immutable.observational", f"{g} raised {type(e).__name__} on the probe trajectory")
+        return
+    try:
+        _fns()[f][0](t) if not f.startswith("save(") else _result_digest(f, t)
+    except Exception as e:
+        ctx.skip("immutable.observational", f"{f} raised {type(e).__name__} on the probe trajectory")
+        return
+    try:
+        got = _result_digest(g, t)
+    except Exception as e:
+        ctx.violation("immutable.observational", f"{f}:breaks-later-call-of:{g}", f"after {f}(t), {g}(t) raises {type(e).__name__}: {e} (it works on a pristine copy)")
+        return
+    ctx.observe("pair_first", f)
+    if got != ref:
+        ctx.violation("immutable.observational", f"{f}:changes-later-result-of:{g}",
+                      f"{g}(t) after {f}(t) differs from {g} on a pristine copy of t (cell variant {'skewed-unreduced' if case['variant'] % 2 else 'orthorhombic'})")
+    else:
+        ctx.ok("immutable.observational")
 
 
 def run_immutable(case, ctx):
